@@ -157,4 +157,22 @@ PROPS = {
         "trusted_base": ["hand transcription (trace replay each run)", "fakes snapshot payload bytes at call time"],
         "assumptions": ["inbox forwarding re-sends a received activity unchanged and is not 'an activity that originated from this server's outbox'"],
     },
+    "C05": {
+        "level": "proof",
+        "lean_modules": ["AV.Props.C05"],
+        "support_modules": ["AV.Spec.Monitors", "AV.Lemmas.JsonLemmas", "AV.Lemmas.LockRules", "AV.Lemmas.LockOps", "AV.Lemmas.LockProofs", "AV.Pub.Util", "AV.Pub.SideEffect", "AV.Pub.SocialCallbacks", "AV.Pub.BaseActor"],
+        "theorems": [
+            "AV.Props.C05.stored_true_safe", "AV.Props.C05.nd_safe", "AV.Props.C05.addToOutbox_stored", "AV.Props.C05.postOutbox_stored",
+            "AV.Props.C05.deliver_order", "AV.Props.C05.stored_trace_meaning", "AV.Props.C05.send_trace",
+            "AV.Props.C05.postOutboxScheme_order", "AV.Props.C05.postOutbox_trace",
+            "AV.Props.C05.items_prependId", "AV.Props.C05.outbox_history",
+        ],
+        "translator_scope": [r"gen_lean", r"T2 failed"],
+        "runners": [{"args": ["pub-C05", "900", "6", "create,outbox,send,history,create"], "timeout": 1500}],
+        "exhaustive": {"quick": False, "thorough": False},
+        "rule": "bare Notes/Articles and Creates with 0..3 embedded Notes whose five addressing properties and attributedTo draw overlapping ids from a pool of 9 (IRIs and embedded actors), every other outbox activity type, through POST and Send, Social-only / Federating-only / both, default and application-replaced callbacks; histories of 1..8 posts to two outboxes with faults part-way; every scenario also with single faults at up to 6 (thorough: all) fallible calls. "
+                "non-trivial = SetOutbox was reached; distinct by scenario hash",
+        "trusted_base": ["hand transcription (trace replay each run)", "fake Database keeps the outbox page it was given"],
+        "assumptions": ["the Database returns from GetOutbox what SetOutbox last stored (history theorem)"],
+    },
 }
